@@ -108,6 +108,38 @@ def mgr_kwargs(case) -> dict:
     return kw
 
 
+INTERLUDE_OPS = ("recalculate", "purge_calculate", "calculate_index", "calculate_index", "calculate_twice")
+
+
+def interlude(draw_int, draw_choice):
+    """a maintenance operation slipped into a run (C14: it must leave the batch state behind, so every oracle of the
+    surrounding property applies unchanged)"""
+    return {"op": draw_choice(INTERLUDE_OPS), "a": draw_int(0, 60), "b": draw_int(0, 5), "after": draw_int(0, 6)}
+
+
+def apply_interlude(ind, inter):
+    op, n = inter["op"], len(ind.candles)
+    if op == "recalculate":
+        ind.recalculate()
+    elif op == "purge_calculate":
+        ind.purge()
+        ind.calculate()
+    elif op == "calculate_twice":
+        ind.calculate()
+        ind.calculate()
+    elif op == "calculate_index" and n:
+        i = inter["a"] % n
+        j = i + 1 if inter["b"] == 0 else min(n, i + inter["b"])
+        # C14 speaks of recomputing an index that already holds a reading (an indicator that was never calculated
+        # has not even built its helpers): anything else is skipped
+        if any(ind.name not in ind.candles[k].indicators for k in range(i, j)):
+            return
+        if inter["b"] == 0:
+            ind.calculate_index(i - n)  # the same candle by its negative index
+        else:
+            ind.calculate_index(i, j)
+
+
 # ---------------------------------------------------------------- snapshots
 def snap_candle(c, readings=True):
     row = [dt_to_ts(c.timestamp), c.open, c.high, c.low, c.close, c.volume]
